@@ -118,6 +118,7 @@ type c04Env struct {
 	msgCnt  int
 	migWait int64 // see nextBlock
 	migAt   int64 // height at whose start (after the previous EndBlocker, before the BeginBlocker — where x/upgrade runs module migrations) the store migration 1 -> 2 is run; 0 = never
+	pcDenom string // the next withdraw / farm / unfarm message carries this pool-coin denom (e.g. the pool coin of ANOTHER app's pool with the same pool id)
 	foreign bool // the next deposit / pool-creation message carries a coin denom that is not in the pair
 	v1      bool // version-1 world: no market-making orders, no ranged pools (the store can be re-encoded in the v1 layout)
 	tiny    bool // tiny-price markets (prices around 10^-4 .. 10^-3): many truncations to zero in the matching engine
@@ -262,6 +263,10 @@ func (e *c04Env) dcode(denom string) string {
 	}
 	if a, p, err := liqtypes.ParsePoolCoinDenom(denom); err == nil {
 		return fmt.Sprintf("p%d.%d", a, p)
+	}
+	var a, p uint64
+	if n, err := fmt.Sscanf(denom, "pool%d-%d", &a, &p); err == nil && n == 2 {
+		return fmt.Sprintf("p%d.%d", a, p) // a pool-coin denom of an app / pool that does not exist (ParsePoolCoinDenom refuses app 0)
 	}
 	e.t.Fatalf("unknown denom %s", denom)
 	return ""
@@ -908,9 +913,11 @@ func (e *c04Env) withdraw(app uint64, ui int, poolID uint64, pc sdkmath.Int, wro
 	if wrongDenom {
 		denom = "ucoina"
 	}
+	denom = e.takePcDenom(denom, "withdraw")
 	msg := liqtypes.NewMsgWithdraw(app, e.users[ui], poolID, sdk.NewCoin(denom, pc))
 	out := e.deliver(msg)
-	e.emit("lq.withdraw", out, u(app), strconv.Itoa(ui), u(poolID), pc.String(), c04b(!wrongDenom))
+	// only the message's denom is emitted: "is it THIS pool's pool coin (app and pool id)" is decided by the model (poolCoinOk)
+	e.emit("lq.withdraw", out, u(app), strconv.Itoa(ui), u(poolID), pc.String(), e.dcode(denom))
 }
 
 // order places a limit (typ 1) or market (typ 2) order.  Only the message is emitted: the tick-fitted price and the price /
@@ -1025,13 +1032,51 @@ func (e *c04Env) cancelMM(app uint64, ui int, pairID uint64) {
 	e.emit("lq.cancelMM", out, u(app), strconv.Itoa(ui), u(pairID))
 }
 
+// takePcDenom: the pool-coin denom of the next message — an override set by a generator (cross-app pool coin), else the default
+func (e *c04Env) takePcDenom(def, kind string) string {
+	if e.pcDenom == "" {
+		return def
+	}
+	d := e.pcDenom
+	e.pcDenom = ""
+	e.tr.Count(kind + ":cross_app_pool_coin")
+	return d
+}
+
+// crossApp picks a holder of the pool coin of some (app, pool) and ANOTHER app that has a pool with the same pool id: the
+// holder addresses the other app's pool with his (foreign) pool coin.  Returns ok=false if the world has no such pair of pools.
+func (e *c04Env) crossApp() (app uint64, poolID uint64, ui int, bal sdkmath.Int, denom string, ok bool) {
+	type cand struct {
+		own, other, pool uint64
+		ui              int
+	}
+	var cs []cand
+	for _, pl := range e.prev.pools {
+		for _, ot := range e.prev.pools {
+			if ot.id == pl.id && ot.app != pl.app {
+				for i := range e.users {
+					if e.prev.get("u"+strconv.Itoa(i), fmt.Sprintf("p%d.%d", pl.app, pl.id)).IsPositive() {
+						cs = append(cs, cand{pl.app, ot.app, pl.id, i})
+					}
+				}
+			}
+		}
+	}
+	if len(cs) == 0 {
+		return 0, 0, 0, sdkmath.ZeroInt(), "", false
+	}
+	c := cs[e.rng.Intn(len(cs))]
+	return c.other, c.pool, c.ui, e.poolCoinBalance(c.ui, c.own, c.pool), liqtypes.PoolCoinDenom(c.own, c.pool), true
+}
+
 func (e *c04Env) farm(app uint64, ui int, poolID uint64, amt sdkmath.Int, wrongDenom bool) {
 	denom := liqtypes.PoolCoinDenom(app, poolID)
 	if wrongDenom {
 		denom = "ucoinb"
 	}
+	denom = e.takePcDenom(denom, "farm")
 	out := e.deliver(liqtypes.NewMsgFarm(app, poolID, e.users[ui], sdk.NewCoin(denom, amt)))
-	e.emit("lq.farm", out, u(app), strconv.Itoa(ui), u(poolID), amt.String(), c04b(!wrongDenom))
+	e.emit("lq.farm", out, u(app), strconv.Itoa(ui), u(poolID), amt.String(), e.dcode(denom))
 }
 
 func (e *c04Env) unfarm(app uint64, ui int, poolID uint64, amt sdkmath.Int, wrongDenom bool) {
@@ -1039,8 +1084,9 @@ func (e *c04Env) unfarm(app uint64, ui int, poolID uint64, amt sdkmath.Int, wron
 	if wrongDenom {
 		denom = "ucoinb"
 	}
+	denom = e.takePcDenom(denom, "unfarm")
 	out := e.deliver(liqtypes.NewMsgUnfarm(app, poolID, e.users[ui], sdk.NewCoin(denom, amt)))
-	e.emit("lq.unfarm", out, u(app), strconv.Itoa(ui), u(poolID), amt.String(), c04b(!wrongDenom))
+	e.emit("lq.unfarm", out, u(app), strconv.Itoa(ui), u(poolID), amt.String(), e.dcode(denom))
 }
 
 func (e *c04Env) depositAndFarm(app uint64, ui int, poolID uint64, x, y sdkmath.Int) {
@@ -1069,8 +1115,9 @@ func (e *c04Env) unfarmAndWithdraw(app uint64, ui int, poolID uint64, amt sdkmat
 			x, y = amm.Withdraw(rx.Amount, ry.Amount, ps, amt, params.WithdrawFeeRate)
 		}
 	}
-	out := e.deliver(liqtypes.NewMsgUnfarmAndWithdraw(app, poolID, e.users[ui], sdk.NewCoin(liqtypes.PoolCoinDenom(app, poolID), amt)))
-	e.emit("lq.unfarmAndWithdraw", out, u(app), strconv.Itoa(ui), u(poolID), amt.String(), x.String(), y.String(), "1")
+	denom := e.takePcDenom(liqtypes.PoolCoinDenom(app, poolID), "unfarmAndWithdraw")
+	out := e.deliver(liqtypes.NewMsgUnfarmAndWithdraw(app, poolID, e.users[ui], sdk.NewCoin(denom, amt)))
+	e.emit("lq.unfarmAndWithdraw", out, u(app), strconv.Itoa(ui), u(poolID), amt.String(), x.String(), y.String(), e.dcode(denom))
 }
 
 // ---------------------------------------------------------------------------------------------------------
@@ -1683,6 +1730,14 @@ func (e *c04Env) genDepositInto(app uint64) {
 }
 
 func (e *c04Env) genWithdraw() {
+	if e.rng.Chance(8) {
+		// malformed stream: the pool coin of ANOTHER app's pool with the same pool id (pool.go ValidateMsgWithdraw)
+		if app, poolID, ui, bal, denom, ok := e.crossApp(); ok {
+			e.pcDenom = denom
+			e.withdraw(app, ui, poolID, e.partOf(bal), false)
+			return
+		}
+	}
 	if app, poolID, ui, bal, ok := e.holder(); ok && e.rng.Chance(85) {
 		e.withdraw(app, ui, poolID, e.partOf(bal), e.rng.Chance(2))
 		return
@@ -1692,6 +1747,13 @@ func (e *c04Env) genWithdraw() {
 }
 
 func (e *c04Env) genFarm() {
+	if e.rng.Chance(6) {
+		if app, poolID, ui, bal, denom, ok := e.crossApp(); ok {
+			e.pcDenom = denom
+			e.farm(app, ui, poolID, e.partOf(bal), false)
+			return
+		}
+	}
 	if app, poolID, ui, bal, ok := e.holder(); ok && e.rng.Chance(85) {
 		e.farm(app, ui, poolID, e.partOf(bal), e.rng.Chance(2))
 		return
@@ -1701,6 +1763,17 @@ func (e *c04Env) genFarm() {
 }
 
 func (e *c04Env) genUnfarm(andWithdraw bool) {
+	if e.rng.Chance(4) {
+		if app, poolID, ui, bal, denom, ok := e.crossApp(); ok {
+			e.pcDenom = denom
+			if andWithdraw {
+				e.unfarmAndWithdraw(app, ui, poolID, e.partOf(bal))
+			} else {
+				e.unfarm(app, ui, poolID, e.partOf(bal), false)
+			}
+			return
+		}
+	}
 	if len(e.prev.farmers) > 0 && e.rng.Chance(85) {
 		f := e.prev.farmers[e.rng.Intn(len(e.prev.farmers))]
 		tot := f.active
@@ -2157,6 +2230,42 @@ func (e *c04Env) witnessRejections() {
 	e.nextBlock(5)
 }
 
+// witnessCrossAppPoolCoin (seed s119): apps 1, 2, 3 each have pool 1.  A user who holds ONLY the pool coin of (app 2, pool 1)
+// addresses (app 1, pool 1) — and (app 3, pool 1) — with it: withdraw, farm, unfarm, unfarm-and-withdraw.  `PoolCoinDenom(app, pool)`
+// encodes the app id too; every one of these must be refused.  If a withdrawal were accepted, app 2's pool coin would be burnt by a
+// withdrawal executed against app 1's pool (poolcoin_supply), out of app 1's reserves.
+func (e *c04Env) witnessCrossAppPoolCoin() {
+	n := func(x int64) sdkmath.Int { return sdkmath.NewInt(x) }
+	for _, app := range []uint64{1, 2, 3} {
+		e.createPair(app, 0, e.coins[1], e.coins[2])
+		e.createPool(app, 0, 1, n(50_000_000), n(50_000_000), false, sdkmath.LegacyDec{}, sdkmath.LegacyDec{}, sdkmath.LegacyDec{})
+	}
+	e.nextBlock(5)
+	e.deposit(2, 2, 1, n(10_000_000), n(10_000_000)) // user 2 becomes a holder of p2.1 only
+	e.nextBlock(5)
+	e.nextBlock(5)
+	bal := e.poolCoinBalance(2, 2, 1)
+	foreign := liqtypes.PoolCoinDenom(2, 1)
+	for _, app := range []uint64{1, 3} {
+		e.pcDenom = foreign
+		e.withdraw(app, 2, 1, bal.QuoRaw(4), false)
+		e.pcDenom = foreign
+		e.farm(app, 2, 1, bal.QuoRaw(4), false)
+		e.pcDenom = foreign
+		e.unfarm(app, 2, 1, bal.QuoRaw(8), false)
+		e.pcDenom = foreign
+		e.unfarmAndWithdraw(app, 2, 1, bal.QuoRaw(8))
+		e.nextBlock(5)
+		e.nextBlock(5)
+	}
+	e.pcDenom = liqtypes.PoolCoinDenom(2, 9) // same app, another pool id
+	e.withdraw(2, 2, 1, bal.QuoRaw(4), false)
+	e.withdraw(2, 2, 1, bal.QuoRaw(4), false) // the genuine one
+	e.farm(2, 2, 1, bal.QuoRaw(4), false)
+	e.nextBlock(5)
+	e.nextBlock(5)
+}
+
 func c04Run(t *testing.T, prop string) {
 	tr := OpenTrace(t, strings.ToLower(prop)+".trace")
 	defer tr.Close(t)
@@ -2175,6 +2284,8 @@ func c04Run(t *testing.T, prop string) {
 	e.witnessMigration()
 	e = c04NewEnv(t, tr, rng, prop, 0)
 	e.witnessRejections()
+	e = c04NewEnv(t, tr, rng, prop, 0)
+	e.witnessCrossAppPoolCoin()
 	nseq := scale(10, 120)
 	blocks := scale(45, 110)
 	if os := envInt("VERIF_SEARCH", 0); os == 1 {
